@@ -36,6 +36,8 @@ const (
 	Subject = "07-tendermint-0"
 	Sub0    = "07-tendermint-1"
 	Sub1    = "07-tendermint-2"
+	Sub2    = "07-tendermint-3" // only with Config.CrossRev
+	Sub3    = "07-tendermint-4" // only with Config.CrossRev
 )
 
 // SubDef describes a substitute client: created in the root world at block (I, V), never updated.
@@ -100,6 +102,7 @@ type Config struct {
 	Mis          bool // MsgUpdateClient carrying ibctm.Misbehaviour
 	Uses         bool // use operations (fixtures: OPEN connection + channel on the subject, v2 counterparty)
 	FullInactive bool // keep the complete update alphabet enabled while the reference says not Active
+	CrossRev     bool // two more substitutes: chain id on the previous revision (numerically larger height) and on the next one
 	Deltas       []time.Duration
 }
 
@@ -122,6 +125,12 @@ func New(cfg Config, or Oracles) *Scenario {
 	}
 	s := &Scenario{Cfg: cfg, Or: or, VC: GetVChain(cfg.P)}
 	s.Subs = []SubDef{{ID: Sub0, I: cfg.P.N, V: 0, Trusting: TrustingSub}, {ID: Sub1, I: 5, V: 1, Trusting: Trusting}}
+	if cfg.CrossRev {
+		if cfg.P.Rev == 0 {
+			panic("tmworld: CrossRev needs a revision above 0")
+		}
+		s.Subs = append(s.Subs, SubDef{ID: Sub2, I: ILowerRev, V: 0, Trusting: TrustingSub}, SubDef{ID: Sub3, I: IHigherRev, V: 0, Trusting: TrustingSub})
+	}
 	return s
 }
 
@@ -490,7 +499,7 @@ func Describe(c interface {
 	Assume(string)
 }) {
 	c.Set("alphabet", "upd(i,v,ti) = MsgUpdateClient with the signed header of block variant v at height index i trusting stored height index ti (any order: gap filling, past heights, duplicates, conflicting variants) | mis(pair,ti) = MsgUpdateClient carrying ibctm.Misbehaviour (forks, time violations, one non-misbehaviour pair) | adv(k) = commit chain A and advance its clock by 5 s / trusting/2 / trusting | rec(s) = MsgRecoverClient by the gov authority with substitute s | use-* = ConnOpenInit, ClientKeeper.VerifyMembership / VerifyNonMembership with real proofs, ChanOpenInit, ChanCloseInit, SendPacket (v1), MsgRecvPacket with a real commitment proof, MsgSendPacket (v2)")
-	c.Set("block_tree", "canonical blocks 10 s apart (block 1 is exactly trusting/2 old at the root); alternatives: 2b,7b same time other app hash; 3b time equal to 2a; 3c same time and app hash as 3a but another next-validators hash; 4b later than 5a; 5b earlier than 4a; 6b same app hash, time +1 s; client: trusting 100 s, unbonding 400 s, drift 10 s; substitutes: (N,a) trusting 150 s, (5,b) trusting 100 s")
+	c.Set("block_tree", "canonical blocks 10 s apart (block 1 is exactly trusting/2 old at the root); alternatives: 2b,7b same time other app hash; 3b time equal to 2a; 3c same time and app hash as 3a but another next-validators hash; 4b later than 5a; 5b earlier than 4a; 6b same app hash, time +1 s; client: trusting 100 s, unbonding 400 s, drift 10 s; substitutes: (N,a) trusting 150 s, (5,b) trusting 100 s; in C21 also (rev-1, Base+N+3) under chain id virt-<rev-1> and (rev+1, 1) under virt-<rev+1>, both trusting 150 s, otherwise identical parameters")
 	c.Assume("the counterparty is virtual: its block tree, validator signatures (1 validator, fixed key), committed IAVL stores and ICS-23 proofs are produced by the harness; every header is properly signed by the one validator set (header acceptance as such is C24's subject)")
 	c.Assume("one message per transaction, ante handlers not on the path; chain A's clock moves only through adv")
 }
